@@ -210,6 +210,22 @@ MUTATIONS = {
         ["C19"],
         [("flox/core.py", '    if method == "cohorts" and any_by_dask:\n        raise ValueError', '    if False and method == "cohorts" and any_by_dask:\n        raise ValueError')],
     ),
+    "restore_dim_order_noop": (
+        ["C15"],
+        [("flox/xarray.py", "    new_order = sorted(result.dims, key=lookup_order)\n    return result.transpose(*new_order)", "    return result")],
+    ),
+    "skipna_false_ignored": (
+        ["C15"],
+        [("flox/xarray.py", '        if skipna or (skipna is None and isinstance(func, str) and array.dtype.kind in "cfO"):', '        if skipna is False or skipna or (skipna is None and isinstance(func, str) and array.dtype.kind in "cfO"):')],
+    ),
+    "grouper_attrs_dropped": (
+        ["C15"],
+        [("flox/xarray.py", "        if keep_attrs:\n            actual[name].attrs = by_.attrs\n", "")],
+    ),
+    "broadcast_size_one_wrong_axis": (
+        ["C15"],
+        [("flox/xarray.py", "        axis = [core_dims[0].index(d) for d in core_dims[0] if d not in dims]", "        axis = [len(core_dims[0]) - 1 - core_dims[0].index(d) for d in core_dims[0] if d not in dims]")],
+    ),
     "nanmin_combine_min": (
         ["C04"],
         [("flox/aggregations.py", '    chunk="nanmin",\n    combine="nanmin",', '    chunk="nanmin",\n    combine="min",')],
